@@ -269,10 +269,12 @@ func runC01ScalarComparedEveryTime(c *Ctx) {
 		return
 	}
 	n := 0
-	for _, in := range instrsIn(f, func(in ssa.Instruction) bool {
+	// (the scalar loop may live in a helper that is handed the two maps: request first, other side second)
+	for _, dh := range c.P.deepFind(f, func(in ssa.Instruction) bool {
 		lk, ok := in.(*ssa.Lookup)
 		return ok && rootParam(termOf(lk.X)) == 1 && loopHeaderOf(in.Block()) != nil
-	}) {
+	}, 2) {
+		in := dh.In
 		n++
 		ok, path := everyIterationPassesR(in, func(x ssa.Instruction) bool { return x == in }, nil, func(*ssa.Return) bool { return false })
 		c.Check(ok, "O15", "MPT", funcKey(f)+": every scalar resource of the request is compared", instrPos(in), "no iteration skips the lookup in the other side",
